@@ -20,6 +20,8 @@ type verifRGen struct {
 	nestKind []string // kinds of the ops injected at a swap
 	interPct int      // % of mutating top-level ops that get injected ops
 	metaMax  int
+	poolPct  int // % of commits whose metadata comes from the two-element pool (identical commits can be rebuilt)
+	amendPct int // % of commit calls that are amends
 }
 
 const verifRKeep = verifRBranchPfx + "keep"
@@ -40,9 +42,10 @@ func verifRWeighted(w map[string]int, order []string) []string {
 
 var verifRKindOrder = []string{verifRCommit, verifRCommitWS, verifRUpdateWS, verifRFF, verifRSetHead, verifRTag, verifRDelete, verifRRefresh, verifRRebase}
 
-func (g *verifRGen) newSym() string {
+// newTag is metadata no other commit uses.
+func (g *verifRGen) newTag() string {
 	g.h.nextN++
-	return fmt.Sprintf("c%d", g.h.nextN)
+	return fmt.Sprintf("u%d", g.h.nextN)
 }
 
 func (g *verifRGen) pickCommit(rt *rapid.T, label string, client int) string {
@@ -60,8 +63,9 @@ func (g *verifRGen) pickCommit(rt *rapid.T, label string, client int) string {
 // setup creates the initial history through the same predict/exec path as everything else.
 func (g *verifRGen) setup(withB1 bool) {
 	h := g.h
-	c1 := g.newSym()
-	h.step(&verifROp{Kind: verifRCommit, Client: 0, ID: verifRKeep, Value: g.values[0], NewSym: c1})
+	first := &verifROp{Kind: verifRCommit, Client: 0, ID: verifRKeep, Value: g.values[0], MetaTag: g.newTag()}
+	h.step(first)
+	c1 := first.NewSym
 	h.step(&verifROp{Kind: verifRSetHead, Client: 0, ID: g.branches[0], WS: g.wss[0], Target: c1, Fresh: true})
 	if withB1 && len(g.branches) > 1 {
 		h.step(&verifROp{Kind: verifRSetHead, Client: 0, ID: g.branches[1], Target: c1, Fresh: true})
@@ -111,35 +115,50 @@ func (g *verifRGen) op(rt *rapid.T, label string, client int, nested bool, hot i
 		op.ID = g.branches[bi]
 		op.Fresh = rapid.IntRange(0, 9).Draw(rt, label+".fresh") < 4
 		op.Value = rapid.SampledFrom(g.values).Draw(rt, label+".value")
-		op.NewSym = g.newSym()
+		op.MetaTag = g.newTag()
+		if rapid.IntRange(0, 99).Draw(rt, label+".pooledMeta") < g.poolPct {
+			// pinned metadata from a tiny pool: another call with the same value and parents builds
+			// the very same commit (a replayed request, a fixed --date)
+			op.MetaTag = rapid.SampledFrom([]string{"p0", "p1"}).Draw(rt, label+".meta")
+		}
 		snap := snapOf(op.ID)
-		switch v := rapid.IntRange(0, 11).Draw(rt, label+".variant"); {
-		case v < 7: // plain: datas fills in the head as the only parent
-		case v < 9: // merge commit naming the head the caller saw
-			other := g.pickCommit(rt, label+".other", client)
-			if snap != "" {
-				op.Parents = []string{snap}
+		amendOf := func(am string) {
+			op.Amend = am
+			op.Parents = append([]string{}, h.m.commits[am].parents...)
+			if rapid.IntRange(0, 2).Draw(rt, label+".amendSame") > 0 {
+				// an amend that changes nothing in the commit (only the working set that goes with it)
+				op.Value, op.MetaTag = h.m.commits[am].value, h.m.commits[am].meta
 			}
-			if other != "" && other != snap {
-				op.Parents = append(op.Parents, other)
-			}
-		case v < 10: // parents that do not name the head the caller holds
-			if other := g.pickCommit(rt, label+".other", client); other != "" {
-				op.Parents = []string{other}
-			}
-		case v < 11: // amend of the head the caller saw (or of a commit that is not the head)
+		}
+		if rapid.IntRange(0, 99).Draw(rt, label+".isAmend") < g.amendPct {
+			// amend of the head the caller saw (or, rarely, of a commit that is not the head)
 			am := snap
-			if am == "" || rapid.IntRange(0, 3).Draw(rt, label+".amendOther") == 0 {
+			if am == "" || rapid.IntRange(0, 4).Draw(rt, label+".amendOther") == 0 {
 				am = g.pickCommit(rt, label+".amend", client)
 			}
 			if am != "" {
-				op.Amend = am
-				op.Parents = append([]string{}, h.m.commits[am].parents...)
+				amendOf(am)
 			}
-		default: // force: no parent check
-			op.Force = true
-			if other := g.pickCommit(rt, label+".other", client); other != "" {
-				op.Parents = []string{other}
+		} else {
+			switch v := rapid.IntRange(0, 10).Draw(rt, label+".variant"); {
+			case v < 7: // plain: datas fills in the head as the only parent
+			case v < 9: // merge commit naming the head the caller saw
+				other := g.pickCommit(rt, label+".other", client)
+				if snap != "" {
+					op.Parents = []string{snap}
+				}
+				if other != "" && other != snap {
+					op.Parents = append(op.Parents, other)
+				}
+			case v < 10: // parents that do not name the head the caller holds
+				if other := g.pickCommit(rt, label+".other", client); other != "" {
+					op.Parents = []string{other}
+				}
+			default: // force: no parent check
+				op.Force = true
+				if other := g.pickCommit(rt, label+".other", client); other != "" {
+					op.Parents = []string{other}
+				}
 			}
 		}
 		if kind == verifRCommitWS {
